@@ -528,6 +528,10 @@ pub struct RDetail {
     pub canonical_query: Option<String>,
     pub merged_pairs: Option<Pairs>,
     pub folded: bool,
+    /// folding would produce a request target near or beyond what a URI can hold: whether such a
+    /// request is served or refused is not decided by the statements (only that, if it is
+    /// accepted, what is returned is what was authenticated)
+    pub near_limit: bool,
     pub carrier_query: Option<bool>,
     pub signed_headers: Option<Vec<String>>,
     pub instant: Option<i128>,
@@ -627,7 +631,7 @@ pub fn rverdict(
                 body = b"";
                 det.folded = true;
                 if cpath.len() + 1 + rcanonq(&pairs).len() > 60000 {
-                    return (Verdict::Unspecified("merged request target near the 64 KiB limit"), det);
+                    det.near_limit = true;
                 }
             } else if mt.eq_ignore_ascii_case(b"application/x-www-form-urlencoded") {
                 // letter-case variant of the media type: the statement names the exact type only.
@@ -825,6 +829,9 @@ pub fn rverdict(
     }
     if let Some(r) = first {
         return (Verdict::Refuse(r), det);
+    }
+    if det.near_limit {
+        return (Verdict::Unspecified("merged request target near the 64 KiB limit"), det);
     }
     if expected == sig {
         (Verdict::Accept, det)
